@@ -54,9 +54,6 @@ mod rawhttp {
         pub status: u16,
         /// (lower-cased name, value bytes as hex) in wire order
         pub headers: Vec<(String, String)>,
-        /// bytes after the head that were read in the same reads
-        #[serde(skip)]
-        pub rest: Vec<u8>,
     }
 
     /// Sends `req` and reads one response head (up to the empty line).
@@ -104,7 +101,7 @@ mod rawhttp {
                 headers.push((name, hex(v)));
             }
         }
-        Ok(Head { status, headers, rest: buf[end + 4..].to_vec() })
+        Ok(Head { status, headers })
     }
 
     fn find(h: &[u8], n: &[u8]) -> Option<usize> {
@@ -152,7 +149,7 @@ mod rawhttp {
                 headers.push((name, hex(v)));
             }
         }
-        Head { status, headers, rest: Vec::new() }
+        Head { status, headers }
     }
 
     impl Head {
@@ -318,6 +315,9 @@ mod c13 {
 ///   server side of the relay handshake and sends one `Status` and one `Health` frame: the client decodes
 ///   exactly the one its version allows.
 /// mode "e2e": the real client against the real server, same observations on both sides.
+/// mode "connect": the whole `ClientBuilder::connect` pipeline (specs/relay/RelayClientConnect.tla): client
+///   configuration (scheme, TLS config present, auth token) against a scripted relay (listening or not, its answer,
+///   its behaviour in the relay handshake); observed: the connect result's class and what the relay saw.
 mod c11 {
     use std::{
         collections::HashMap,
@@ -353,7 +353,7 @@ mod c11 {
 
     const WAIT: Duration = Duration::from_secs(20);
 
-    #[derive(Deserialize)]
+    #[derive(Deserialize, Clone)]
     struct Case {
         mode: String,
         /// srv: the complete upgrade request (hex)
@@ -364,9 +364,35 @@ mod c11 {
         status: u16,
         #[serde(default)]
         proto: Option<String>,
+        // mode "connect" (specs/relay/RelayClientConnect.tla): the client's configuration ...
+        #[serde(default)]
+        scheme: String,
+        #[serde(default)]
+        tls_config: bool,
+        #[serde(default)]
+        token: Option<String>,
+        // ... and the scripted relay: listens at all / closes instead of answering / behaviour in the relay handshake
+        #[serde(default)]
+        listen: bool,
+        #[serde(default)]
+        close: bool,
+        #[serde(default)]
+        hs: String,
+    }
+    /// What the scripted relay saw of the client (mode "connect").
+    #[derive(Serialize, Default, Clone, Debug)]
+    struct Seen {
+        conn: bool,
+        req: bool,
+        /// first line of the request
+        request_line: String,
+        /// values (hex) of the Authorization headers
+        auth: Vec<String>,
+        offer: Vec<String>,
     }
     #[derive(Serialize, Default)]
     struct Obs {
+        seen: Seen,
         case: usize,
         /// status of the server's answer (srv, e2e: as seen by the raw client / always 101 if the real client got through)
         status: u16,
@@ -611,6 +637,9 @@ mod c11 {
 
     fn classify(e: &ConnectError) -> &'static str {
         match e {
+            ConnectError::MissingCryptoProvider { .. } => "nocrypto",
+            ConnectError::InvalidAuthToken { .. } => "token",
+            ConnectError::Handshake { source, .. } if matches!(source, handshake::Error::ServerDeniedAuth { .. }) => "handshake-denied",
             ConnectError::BadVersionHeader { .. } => "version",
             ConnectError::UnexpectedUpgradeStatus { .. } => "status",
             ConnectError::Websocket { .. } => "websocket",
@@ -660,6 +689,102 @@ mod c11 {
             Err(_) => env_fail("scripted server did not finish within 20 s"),
         }
         obs.status = status;
+        obs
+    }
+
+    /// The scripted relay of mode "connect": records what it sees in `seen` as it goes.
+    async fn connect_server(listener: TcpListener, c: &Case, seen: Arc<Mutex<Seen>>) {
+        let Ok((mut s, _)) = listener.accept().await else { return };
+        seen.lock().unwrap().conn = true;
+        let Ok(Ok(raw)) = tokio::time::timeout(WAIT, rawhttp::read_head_exact(&mut s)).await else { return };
+        if !raw.ends_with(b"\r\n\r\n") {
+            return; // the client hung up without sending a request
+        }
+        let head = rawhttp::parse_head(&raw);
+        {
+            let mut g = seen.lock().unwrap();
+            g.req = true;
+            g.request_line = String::from_utf8_lossy(raw.split(|b| *b == b'\r').next().unwrap_or_default()).into_owned();
+            g.auth = head.values("authorization");
+            g.offer = head.values("sec-websocket-protocol");
+        }
+        if c.close {
+            return;
+        }
+        let key = head.values("sec-websocket-key").first().map(|k| unhex(k)).unwrap_or_default();
+        let mut resp: Vec<u8> = Vec::new();
+        if c.status == 101 {
+            resp.extend_from_slice(b"HTTP/1.1 101 Switching Protocols\r\nUpgrade: websocket\r\nConnection: upgrade\r\n");
+            resp.extend_from_slice(format!("Sec-WebSocket-Accept: {}\r\n", rawhttp::ws_accept(&key)).as_bytes());
+        } else {
+            resp.extend_from_slice(format!("HTTP/1.1 {} Bad Request\r\nContent-Length: 0\r\n", c.status).as_bytes());
+        }
+        if let Some(p) = &c.proto {
+            resp.extend_from_slice(b"Sec-WebSocket-Protocol: ");
+            resp.extend_from_slice(&unhex(p));
+            resp.extend_from_slice(b"\r\n");
+        }
+        resp.extend_from_slice(b"\r\n");
+        if s.write_all(&resp).await.is_err() || c.status != 101 {
+            return;
+        }
+        let mut io = WsBytes(tokio_websockets::ServerBuilder::new().serve(s));
+        match c.hs.as_str() {
+            "close" => return,
+            "garbage" => {
+                let _ = io.send(Bytes::from_static(&[99, 1, 2, 3])).await;
+            }
+            kind => {
+                let Ok(Ok(auth)) = tokio::time::timeout(WAIT, handshake::serverside(&mut io, None)).await else { return };
+                let access = if kind == "deny" { Access::Deny { reason: Some("scripted denial".into()) } } else { Access::Allow };
+                let _ = auth.authorize_if(access, &mut io).await;
+            }
+        }
+        // keep the connection until the client is done with it
+        let _ = tokio::time::timeout(WAIT, io.next()).await;
+    }
+
+    async fn connect_case(case: usize, c: &Case) -> Obs {
+        let mut obs = Obs { case, ..Default::default() };
+        let listener = TcpListener::bind((Ipv4Addr::LOCALHOST, 0)).await.unwrap_or_else(|e| env_fail(format!("bind: {e}")));
+        let addr = listener.local_addr().expect("local addr");
+        let seen = Arc::new(Mutex::new(Seen::default()));
+        let server = if c.listen {
+            let (c2, seen2) = (c.clone(), seen.clone());
+            Some(tokio::spawn(async move { connect_server(listener, &c2, seen2).await }))
+        } else {
+            drop(listener); // nothing listens on the port any more: connection refused
+            None
+        };
+        let key = secret(case, 0x33);
+        let url: RelayUrl = format!("{}://{addr}", c.scheme).parse().expect("url");
+        let mut builder = ClientBuilder::new(url, key, DnsResolver::new());
+        if c.tls_config {
+            builder = builder.tls_client_config(CaTlsConfig::default().client_config(default_provider()).expect("tls client config"));
+        }
+        if let Some(t) = &c.token {
+            builder = builder.auth_token(t.clone());
+        }
+        match tokio::time::timeout(WAIT, builder.connect()).await {
+            Err(_) => env_fail("ClientBuilder::connect did not finish within 20 s against a loopback server"),
+            Ok(Err(e)) => {
+                obs.cli_err = classify(&e).to_string();
+                obs.cli_err_text = format!("{e:#}");
+            }
+            Ok(Ok(client)) => drop(client),
+        }
+        if let Some(task) = server {
+            // a connection the client made is already in the accept queue: a short grace is enough to see "no connection"
+            let grace = if seen.lock().unwrap().conn { WAIT } else { Duration::from_millis(150) };
+            let mut task = task;
+            if tokio::time::timeout(grace, &mut task).await.is_err() {
+                if seen.lock().unwrap().conn && !task.is_finished() {
+                    let _ = tokio::time::timeout(WAIT, &mut task).await;
+                }
+                task.abort();
+            }
+        }
+        obs.seen = seen.lock().unwrap().clone();
         obs
     }
 
@@ -716,6 +841,7 @@ mod c11 {
                     "srv" => srv_case(addr, &rec, case, &unhex(&c.request)).await,
                     "cli" => cli_case(case, c.status, c.proto.as_deref().map(unhex)).await,
                     "e2e" => e2e_case(addr, &rec, case).await,
+                    "connect" => connect_case(case, c).await,
                     other => panic!("unknown mode {other}"),
                 };
                 out.emit(&obs);
